@@ -48,6 +48,14 @@ inductive Expr
   | readA (r : RefId)
   | raise (k : Nat)
   | try_ (a : Expr) (c : Catch) (b : Expr)
+  /-- `try: a` / `except <c>: b; raise` – the handler evaluates `b` for what it does (it calls
+  cells), then the exception that was caught propagates again; if `b` itself fails, that new
+  exception propagates instead -/
+  | tryRe (a : Expr) (c : Catch) (b : Expr)
+  /-- `try: a` / `finally: b` – `b` is evaluated whether `a` returned or raised; then the value of
+  `a` is the result, or the exception of `a` propagates again; if `b` fails, its exception
+  propagates instead -/
+  | tryFin (a : Expr) (b : Expr)
 deriving Repr, Inhabited
 
 def arith (op : Int → Int → Int) (a b : Val) (k : Val → Prog) (h : Bool → Err → Prog) : Prog :=
@@ -91,6 +99,13 @@ def compile (ar : CellId → Option Nat) (params : List Val) : Expr → (Val →
   | .raise e, _, h => h true (.user e)
   | .try_ a c b, k, h => compile ar params a k (fun isNew e =>
       if c.catches e then compile ar params b k h else h isNew e)
+  -- the calls `b` makes happen while the exception is being handled; when they have returned, the
+  -- SAME exception goes on (`h isNew e`: for an exception received from a callee that is
+  -- `reraise`, and the executor's `keepExc` has kept its identity across the calls)
+  | .tryRe a c b, k, h => compile ar params a k (fun isNew e =>
+      if c.catches e then compile ar params b (fun _ => h isNew e) h else h isNew e)
+  | .tryFin a b, k, h => compile ar params a (fun v => compile ar params b (fun _ => k v) h)
+      (fun isNew e => compile ar params b (fun _ => h isNew e) h)
 def compileArgs (ar : CellId → Option Nat) (params : List Val) : List Expr → (List Val → Prog) → (Bool → Err → Prog) → Prog
   | [], k, _ => k []
   | e :: es, k, h => compile ar params e (fun v => compileArgs ar params es (fun vs => k (v :: vs)) h) h
@@ -114,6 +129,8 @@ def scopeExpr (visible : RefId → Bool) : Expr → Expr
   | .readA r => .readA r
   | .raise k => .raise k
   | .try_ a c b => .try_ (scopeExpr visible a) c (scopeExpr visible b)
+  | .tryRe a c b => .tryRe (scopeExpr visible a) c (scopeExpr visible b)
+  | .tryFin a b => .tryFin (scopeExpr visible a) (scopeExpr visible b)
 def scopeExprs (visible : RefId → Bool) : List Expr → List Expr
   | [] => []
   | e :: es => scopeExpr visible e :: scopeExprs visible es
@@ -144,9 +161,60 @@ def deadExpr (dead : CellId → Option Bool) : Expr → Expr
   | .readA r => .readA r
   | .raise k => .raise k
   | .try_ a c b => .try_ (deadExpr dead a) c (deadExpr dead b)
+  | .tryRe a c b => .tryRe (deadExpr dead a) c (deadExpr dead b)
+  | .tryFin a b => .tryFin (deadExpr dead a) (deadExpr dead b)
 def deadExprs (dead : CellId → Option Bool) : List Expr → List Expr
   | [] => []
   | e :: es => deadExpr dead e :: deadExprs dead es
+end
+
+/-! The blocks of `tryRe` / `tryFin` are modelled for bodies that do not handle exceptions
+themselves: after a `try … except` INSIDE such a block has swallowed a failure of its own, Python
+goes back to the exception the block is handling, whereas the model's `curExc` stays with the
+failure swallowed last (the executor keeps identities across calls that return, not across handlers
+of the same formula).  The driver refuses formulas outside this class (`blocksSimple`). -/
+mutual
+def tryFree : Expr → Bool
+  | .lit _ => true
+  | .none => true
+  | .param _ => true
+  | .add a b => tryFree a && tryFree b
+  | .sub a b => tryFree a && tryFree b
+  | .mul a b => tryFree a && tryFree b
+  | .lt a b => tryFree a && tryFree b
+  | .ite c a b => tryFree c && tryFree a && tryFree b
+  | .call _ args => tryFreeList args
+  | .readN _ => true
+  | .readA _ => true
+  | .raise _ => true
+  | .try_ _ _ _ => false
+  | .tryRe _ _ _ => false
+  | .tryFin _ _ => false
+def tryFreeList : List Expr → Bool
+  | [] => true
+  | e :: es => tryFree e && tryFreeList es
+end
+
+mutual
+def blocksSimple : Expr → Bool
+  | .lit _ => true
+  | .none => true
+  | .param _ => true
+  | .add a b => blocksSimple a && blocksSimple b
+  | .sub a b => blocksSimple a && blocksSimple b
+  | .mul a b => blocksSimple a && blocksSimple b
+  | .lt a b => blocksSimple a && blocksSimple b
+  | .ite c a b => blocksSimple c && blocksSimple a && blocksSimple b
+  | .call _ args => blocksSimpleList args
+  | .readN _ => true
+  | .readA _ => true
+  | .raise _ => true
+  | .try_ a _ b => blocksSimple a && blocksSimple b
+  | .tryRe a _ b => blocksSimple a && tryFree b
+  | .tryFin a b => blocksSimple a && tryFree b
+def blocksSimpleList : List Expr → Bool
+  | [] => true
+  | e :: es => blocksSimple e && blocksSimpleList es
 end
 
 /-- formula of a cells whose body is `e`, applied to the key (arity already checked) -/
